@@ -151,6 +151,17 @@ CLAIMED = {
              "TLA+ reference; both APIs equal the same reference bytes, hence each other.",
         note="the IEEE-754 value<->bit-pattern correspondence is CPython's struct; the 64-bit value space is sampled, boundary classes are exhaustive",
         design="5/C14"),
+    "C16": dict(
+        technique="executable TLA+ reference SecsIBlock (split/checksum/join theorems and single-byte-corruption rejection proved by "
+                  "TLC on a boundary universe) + reassembly interleaving model (Reassembly) + byte-exact vectors, corruption sweep "
+                  "and interleaved block sequences on the real SecsIMessage/SecsIBlock/SecsIProtocol",
+        text="E4 block format is an executable TLA+ definition; TLC proves Join(Split) = identity, numbering/E-bit rules, "
+             "rejection of all single-byte corruptions for blocks with 0/1/244 data bytes, and every interleaving of three "
+             "messages' blocks in the reassembly model. 540 header vectors, 9 boundary body lengths (byte-exact blocks), block "
+             "counts up to 32767, ~4k corruptions of real blocks and random merges of four multi-block messages through the real "
+             "dispatch path are compared with it.",
+        note="checksum strength against multi-byte corruption is outside the property (single-byte alterations)",
+        design="5/C16"),
 }
 
 NOT_YET = "check not built yet in this round (specification and harness in progress; see DESIGN.md section 9)"
